@@ -4,10 +4,10 @@ import sink
 import obs
 
 ID = "C12"
-REQUIRES = ["Agree", "C12Spec", "Truth"]
+REQUIRES = ["Agree", "C12Spec", "Truth", "ObsCheck"]
 THEOREM_REQUIRES = ["C12"]
-THEOREMS = ["C12_holds_bool"]
-PROOF_FILES = ["Proofs/GenInv.v", "Proofs/Tactics.v", "Proofs/C12Proof.v", "Properties/C12.v"]
+THEOREMS = ["C12_holds_bool", "C12_resolution"]
+PROOF_FILES = ["Proofs/GenInv.v", "Proofs/Tactics.v", "Proofs/C12Proof.v", "Proofs/C12Resolve.v", "Properties/C12.v"]
 RULE = ("kitchen-sink shaders with 0..6 overrides over {bool,i32,u32,f32} x default? x @id?, defaults referring to other "
         "overrides, with vertex/fragment/compute entries using them; ground truth (fields, optionality, keys, bool "
         "conversion) computed in Python and compared with the real output; non-trivial = >= 2 overrides; distinct = "
@@ -56,12 +56,62 @@ def _obs(c, r):
     return obs.check_c12_resolved(c["truth"], c["assignments"], [ov.get(j, {}) for j in range(len(c["assignments"]))])
 
 
+def _oval(ty, v):
+    if ty == "bool":
+        return "(VBool %s)" % ("true" if v else "false")
+    if ty == "i32":
+        return "(VI32 (%d)%%Z)" % int(v)
+    if ty == "u32":
+        return "(VU32 %d%%N)" % int(v)
+    return "(VF32 %d%%N)" % obs._f32_bits(v)
+
+
+def _observed_oval(ty, x):
+    """the f64 the compiled module put into the map, read back as a value of the override's type; a value that is not
+    the image of any value of that type is encoded so that it cannot match"""
+    x = float(x)
+    if ty == "bool" and x in (0.0, 1.0):
+        return "(VBool %s)" % ("true" if x == 1.0 else "false")
+    if ty == "i32" and x == int(x) and -2 ** 31 <= x < 2 ** 31:
+        return "(VI32 (%d)%%Z)" % int(x)
+    if ty == "u32" and x == int(x) and 0 <= x < 2 ** 32:
+        return "(VU32 %d%%N)" % int(x)
+    if ty == "f32" and obs._f32(x) == x:
+        return "(VF32 %d%%N)" % obs._f32_bits(x)
+    import struct
+    return "(VF64 %d%%N)" % struct.unpack("<Q", struct.pack("<d", x))[0]
+
+
+def coq_obs_clause(c, r, real):
+    """Coq-evaluated: Overrides.constants_map of the extracted output, applied to each struct value the harness used,
+    equals the map the compiled constants() returned"""
+    runs = (r.get("obs") or {}).get("overrides") or []
+    if not c["truth"] or len(runs) != len(c["assignments"]):
+        return "true"
+    by_key = {(str(t["id"]) if t["id"] is not None else t["name"]): t for t in c["truth"]}
+    parts = []
+    for a, run in zip(c["assignments"], runs):
+        consts = run.get("constants")
+        if consts is None:
+            return "false"
+        al = "; ".join("(%s, %s)" % (sink._cs(t["name"]), "None" if a.get(t["name"]) is None else "(Some %s)" % _oval(t["ty"], a[t["name"]]))
+                       for t in c["truth"])
+        ol = []
+        for k, x in sorted(consts.items()):
+            t = by_key.get(k)
+            ol.append("(%s, %s)" % (sink._cs(k), _observed_oval(t["ty"], x) if t else "(VF64 0%N)"))
+        parts.append("obs_constants_ok %s [%s] [%s]" % (real, al, "; ".join(ol)))
+    return " && ".join(parts) if parts else "true"
+
+
 def verdict_expr(c, r, ir, real):
     ob = "true"
     if "obs" in r and r.get("result") == "ok":
         ok, why = _obs(c, r)
         c["note"] = why
         ob = "true" if ok else "false"
+        if obs.usable(r):
+            ob += " && " + coq_obs_clause(c, r, real)
     t = sink.coq_overrides_truth(c["truth"])
     return ('[wf_overrides %s; agree_res agree_C12 (gen %s ""%%string None %s) %s; '
             'on_ok %s (fun o => C12_ok %s o && truth_overrides_ok o %s) && %s]'
